@@ -281,6 +281,8 @@ URIS = [
     ('TCP://Host.Example:65535', ('tcp', 'host.example', 65535)),
     ('udp://192.168.0.9', ('udp', '192.168.0.9', 6363)), ('udp4://192.168.0.9:56363', ('udp', '192.168.0.9', 56363)),
     ('udp6://[fe80::1]:6363', ('udp', 'fe80::1', 6363)), ('UDP4://h:9', ('udp', 'h', 9)),
+    ('udp://224.0.23.170', ('udp', '224.0.23.170', 6363)), ('udp4://239.255.0.1', ('udp', '239.255.0.1', 6363)), ('udp6://[ff02::1234]', ('udp', 'ff02::1234', 6363)),
+    ('udp://224.0.23.170:56363', ('udp', '224.0.23.170', 56363)), ('tcp://0.0.0.0', ('tcp', '0.0.0.0', 6363)), ('udp://255.255.255.255', ('udp', '255.255.255.255', 6363)),
     ('ws://localhost:9696', None), ('wss://example.com/ws', None), ('http://example.com', None), ('', None),
     ('localhost:6363', None), ('ether://[01:00:5e:00:17:aa]', None), ('tcp5://h:1', None), ('dev://eth0', None), ('unixx:///x', None),
     ('tcps://h:1', None), ('udplite://h', None), ('uni:///x', None), ('unix-stream:///x', None), ('tcp46://h', None),
@@ -292,7 +294,7 @@ def check_faces(ctx, rng):
     for _ in range(ctx.n(200, 3000000)):
         scheme = rng.choice(['tcp', 'tcp4', 'tcp6', 'udp', 'udp4', 'udp6', 'ws', 'quic', 'ftp', 'tcpx', 'Tcp', 'UDP6', 'tcps', 'tcp46', 'tcp+tls',
                              'udplite', 'udp5', 'udp-dev', 'xtcp', 'tc', 'ud', 'unixs', 'tcp4x', 'udp6.1'])
-        host = rng.choice(['h', 'a.b.c', '1.2.3.4', '[::1]', '[2001:db8::1]', 'localhost'])
+        host = rng.choice(['h', 'a.b.c', '1.2.3.4', '[::1]', '[2001:db8::1]', 'localhost', '224.0.23.170', '239.255.0.1', '[ff02::1234]', '255.255.255.255', '0.0.0.0', '[::]'])
         port = rng.choice([None, 1, 80, 6363, 6364, 65535, rng.randint(1, 65535)])
         uri = f'{scheme}://{host}' + (f':{port}' if port else '')
         kind = 'tcp' if scheme.lower() in ('tcp', 'tcp4', 'tcp6') else 'udp' if scheme.lower() in ('udp', 'udp4', 'udp6') else None
